@@ -5,10 +5,10 @@ NOTE = ("Trusted: Coq 8.16.1 kernel; the hand-written model's faithfulness (chec
         "of atomics; dependency crates (orx-concurrent-iter, ordered bag, priority queue, SplitVec/FixedVec) modelled from "
         "their source, not verified. No axioms (Print Assumptions: closed under the global context).")
 
-K3 = ("tied to /repo by K3: ~9700 (quick) generated computations over 159 (source kind x chain shape) programs (Vec, slice, "
+K3 = ("tied to /repo by K3: ~10500 (quick) generated computations over 159 (source kind x chain shape) programs (Vec, slice, "
       "&Vec, range, exact/unknown-size iterators, VecDeque (wrapped, owned and borrowed), BTreeSet, HashSet, LinkedList, "
       "BinaryHeap, cloned view, pre-advanced concurrent iterators) x 21 terminals x num_threads/chunk_size settings run on the "
-      "real crate and on the extracted model, and K4: ~1300 replays under the deterministic scheduler; ")
+      "real crate and on the extracted model, K4: ~1500 replays under the deterministic scheduler, and K7: all par()/into_par() conversions against the collection's own iterator; ")
 
 
 def c(technique, text, ref):
